@@ -582,7 +582,7 @@ func bFindresource(intp *Interpreter) error {
 	case String:
 		key = Name(keyObj)
 	default:
-		return intp.e(eUndefinedresource, "findresource: needs a name or string, not %T", keyObj)
+		return intp.e(eTypecheck, "findresource: needs a name or string, not %T", keyObj)
 	}
 	catDict := cat.(Dict)
 	obj, ok := catDict[key]
